@@ -1576,3 +1576,250 @@ def swap_model(P, R):
                 'diagram reduced, tables and counts consistent, per-level '
                 'index exact, computed table reset, sizes returned')
     return n
+
+
+def cy_release_model(P, R, mod, deref):
+    """`<mod>.Function.__dealloc__` interpreted with a recording model of
+    the library's release call: a live handle gives back exactly one
+    reference, to the node it holds at entry; where the class keeps the
+    `_ref` lower bound, a handle whose bound is zero gives back nothing,
+    and a second finalisation of a handle finalised once gives back
+    nothing more."""
+    d = P.func(f'{mod}.Function.__dealloc__')
+    guarded = any(au.chain(n) == ['self', '_ref']
+                  for n in ast.walk(d.node))
+    null = interp.Sym('NULL')
+    bad = None
+    runs = [(1, 7)] + ([(0, 7), (2, 7)] if guarded else [])
+    n = 0
+    for ref, node in runs:
+        n += 1
+        log = []
+
+        def release(m, call, args, kw):
+            log.append(tuple(args))
+            return None
+        stubs = {deref: release}
+        env = {'self': interp.Sym('self'), 'self.node': node,
+               'self.manager': interp.Sym('manager'),
+               'self.bdd': interp.Sym('bdd'), 'self._ref': ref,
+               'NULL': null}
+        try:
+            out, m = interp.run_function(d.node, env, stubs)
+            first = list(log)
+            if guarded and out[0] != 'raise' and ref == 1:
+                interp.run_function(d.node, m.env, stubs)
+        except interp.Unknown as e:
+            R.undecided('R-CYTS', d.qualname, 'finaliser model', str(e))
+            return
+        if out[0] == 'raise':
+            bad = (f'a handle with _ref = {ref} on node {node}: the '
+                   f'finaliser raises {out[1]}')
+        elif guarded and ref == 0:
+            if first:
+                bad = ('releases although the lower bound `_ref` is zero')
+        elif len(first) != 1:
+            bad = (f'gives back {len(first)} library reference(s) instead '
+                   'of one')
+        elif first[0][-1] != node:
+            bad = (f'releases {first[0][-1]!r}, not the node {node} that '
+                   'the handle holds')
+        elif guarded and ref == 1 and len(log) != 1:
+            bad = ('a second finalisation releases the node again')
+        if bad:
+            break
+    if bad:
+        R.violation('R-CYTS', 'handle-release', d.qualname, deref,
+                    f'{d.qualname} {bad}', unit=d.unit.rel, line=d.lineno)
+    else:
+        R.holds('R-CYTS', d.qualname,
+                f'finaliser model ({n} handle state(s)): one {deref} of '
+                'the node held, none when the lower bound is zero')
+
+
+def _fresh_manager(vars_=None):
+    vars_ = dict(vars_ or {})
+    n = len(vars_)
+    t = (n, None, None)
+    return {
+        'self': interp.Sym('self'),
+        'self.vars': vars_,
+        'self._level_to_var': {k: v for v, k in vars_.items()},
+        'self._succ': {1: t}, 'self._pred': {t: 1}, 'self._ref': {1: 1},
+        'self._ite_table': dict(), 'self._min_free': 2,
+        'self.max_nodes': 1000, 'self.roots': set()}
+
+
+def pickle_roundtrip_model(P, R):
+    """`BDD._dump_bdd` interpreted on small managers, and `BDD.load`
+    interpreted on what it wrote, into a fresh manager, into one with the
+    variables in another order (levels not restored) and into one that
+    already holds nodes.  C12: the file holds the variables, the roots
+    as given and the node table below them (all nodes when no roots are
+    named); the loaded references denote, by variable name, the
+    functions that were dumped."""
+    import itertools
+    dump = P.func('dd.bdd.BDD._dump_bdd')
+    load = P.func('dd.bdd.BDD.load')
+    names = ['a', 'b', 'c']
+    rows = list(itertools.product((False, True), repeat=3))
+
+    def tt(fn):
+        return tuple(bool(fn(*r)) for r in rows)
+    funcs = [tt(lambda a, b, c: a and not b),
+             tt(lambda a, b, c: (b if a else c)),
+             tt(lambda a, b, c: a != (b or c)),
+             tt(lambda a, b, c: c)]
+    resolver = interp.ModuleEnv(P, 'dd.bdd')
+    problems = dict()
+    n = 0
+    dparams = [p for p in dump.params if p != 'self']
+    lparams = [p for p in load.params if p != 'self']
+    for order in (['a', 'b', 'c'], ['c', 'a', 'b']):
+        src, ext = _build_manager(order, funcs, [0, 1, 2, 3])
+        roots_abs = sorted(ext)
+        # references with signs, as the user holds them
+        want = dict()
+        for u in roots_abs:
+            want[u] = _tt_of(src, u, names)
+            want[-u] = tuple(not x for x in want[u])
+        for shape in ('list', 'dict', 'none'):
+            if shape == 'list':
+                roots = [roots_abs[0], -roots_abs[1], roots_abs[-1]]
+            elif shape == 'dict':
+                roots = {'f': -roots_abs[0], 'g': roots_abs[2]}
+            else:
+                roots = None
+            written = []
+
+            def w_dump(m, call, args, kw):
+                written.append(copy.deepcopy(args[0]))
+                return None
+            stubs = ClassStubs(P, 'dd.bdd.BDD', extra={
+                'open': lambda m, c, a, k: interp.Sym('file'),
+                'dump': w_dump,
+                '_request_reordering': lambda m, c, a, k: None},
+                skip={'dump', 'load'})
+            env = copy.deepcopy({k: v for k, v in src.items()
+                                 if k != 'self'})
+            env['self'] = src['self']
+            env[dparams[0]] = copy.deepcopy(roots)
+            env[dparams[1]] = 'file.p'
+            kwname = dump.node.args.kwarg.arg if dump.node.args.kwarg \
+                else None
+            if kwname:
+                env[kwname] = dict()
+            what = (f'variables {order}, nodes {src["self._succ"]}, '
+                    f'dump of roots {roots}')
+            try:
+                out, m = interp.run_function(dump.node, env, stubs,
+                                             resolver)
+            except interp.Unknown as e:
+                R.undecided('R-FORMAT', dump.qualname,
+                            'pickle writer model', str(e))
+                return
+            n += 1
+            if out[0] == 'raise' or len(written) != 1 or not isinstance(
+                    written[0], dict):
+                problems.setdefault('pickle-content/file', (
+                    f'{what}: {out[0]} {out[1]}, wrote {written}'))
+                continue
+            d = written[0]
+            if d.get('vars') != src['self.vars'] or \
+                    d.get('roots') != roots:
+                problems.setdefault('pickle-content/vars', (
+                    f'{what}: the file holds vars = {d.get("vars")}, '
+                    f'roots = {d.get("roots")}'))
+                continue
+            if roots is None:
+                below = set(src['self._succ'])
+            else:
+                below, todo = {1}, [abs(r) for r in (
+                    roots.values() if isinstance(roots, dict) else roots)]
+                while todo:
+                    u = todo.pop()
+                    if u in below:
+                        continue
+                    below.add(u)
+                    t = src['self._succ'][u]
+                    todo += [abs(t[1]), abs(t[2])]
+            want_succ = {u: src['self._succ'][u] for u in below}
+            if d.get('succ') != want_succ:
+                problems.setdefault('pickle-content/succ', (
+                    f'{what}: the node table of the file is '
+                    f'{d.get("succ")}; the nodes below the roots are '
+                    f'{want_succ}'))
+                continue
+            if roots is None:
+                continue
+            # ---- read it back
+            targets = [
+                ('a fresh manager', _fresh_manager(), True),
+                ('a manager with the variables in the order b, c, a',
+                 _fresh_manager({'b': 0, 'c': 1, 'a': 2}), False),
+                ('the manager it was dumped from',
+                 copy.deepcopy({k: v for k, v in src.items()
+                                if k != 'self'}), True),
+            ]
+            for tname, tenv, levels in targets:
+                n += 1
+                tenv['self'] = interp.Sym('self')
+                tenv.setdefault('self.roots', set())
+
+                def r_load(m, call, args, kw, d=d):
+                    return copy.deepcopy(d)
+                lstubs = ClassStubs(P, 'dd.bdd.BDD', extra={
+                    'open': lambda m, c, a, k: interp.Sym('file'),
+                    'load': r_load,
+                    '_request_reordering': lambda m, c, a, k: None},
+                    skip={'dump', 'load'})
+                tenv[lparams[0]] = 'file.p'
+                if len(lparams) > 1:
+                    tenv[lparams[1]] = levels
+                try:
+                    out, m2 = interp.run_function(load.node, tenv, lstubs,
+                                                  resolver)
+                except interp.Unknown as e:
+                    R.undecided('R-FORMAT', load.qualname,
+                                'pickle reader model', str(e))
+                    return
+                lwhat = f'{what}, loaded into {tname}' + (
+                    '' if levels else ' with levels=False')
+                if out[0] != 'return':
+                    problems.setdefault('pickle-load/raises', (
+                        f'{lwhat}: {out[0]} {out[1]}'))
+                    continue
+                got = out[1]
+                if isinstance(roots, dict):
+                    pairs = [(roots[k], got.get(k) if isinstance(
+                        got, dict) else None) for k in roots]
+                else:
+                    got = list(got) if isinstance(
+                        got, (list, tuple)) else None
+                    pairs = list(zip(roots, got)) if got is not None \
+                        and len(got) == len(roots) else [(roots[0], None)]
+                for old, new in pairs:
+                    t2 = _tt_of(m2.env, new, names) if isinstance(
+                        new, int) and abs(new) in m2.env['self._succ'] \
+                        and set(m2.env['self.vars']) >= set(names) \
+                        else None
+                    if t2 != want[old]:
+                        problems.setdefault('pickle-load/function', (
+                            f'{lwhat}: the root {old} comes back as '
+                            f'{new}, which does not denote the function '
+                            f'that was dumped (nodes now '
+                            f'{m2.env["self._succ"]}, levels '
+                            f'{m2.env["self.vars"]})'))
+                        break
+    for key, msg in sorted(problems.items()):
+        sub, construct = key.split('/')
+        f = dump if sub == 'pickle-content' else load
+        R.violation('R-FORMAT', sub, f.qualname, construct, msg,
+                    unit=f.unit.rel, line=f.lineno)
+    if not problems:
+        R.holds('R-FORMAT', dump.qualname,
+                f'pickle round-trip model ({n} runs): the file holds '
+                'variables, roots and the node table below them; loaded '
+                'references denote the dumped functions by variable name '
+                '(fresh manager, other variable order, same manager)')
+    return n
